@@ -38,11 +38,11 @@ class StubTree:
 
     @property
     def maxes(self):
-        return np.max(self.pts, axis=0)        # bounding box (comparisons fork)
+        return arr([sym.sym_extreme(list(self.pts[:, a]), "max") for a in range(self.pts.shape[1])])      # bounding box, no forks
 
     @property
     def mins(self):
-        return np.min(self.pts, axis=0)
+        return arr([sym.sym_extreme(list(self.pts[:, a]), "min") for a in range(self.pts.shape[1])])
 
     def query_ball_point(self, c, r, p=2.0, **k):
         out = []
